@@ -300,6 +300,42 @@ func checkC12(c C12Case, r *Rec) *Violation {
 		if err != nil {
 			return Violf("C12: unreadable dump: %v\n%s", err, dP)
 		}
+		// a config whose OperatorMap also holds an entry under the name of a built-in operator the program
+		// uses (RegisterOperator refuses such names, a hand-built map does not): whichever of the two the
+		// engine calls, it calls the same one with and without events (model-free: plain vs event mode only)
+		if mask == c.Masks[0] && !c.Try {
+			shadowed := ""
+			c.Tree.Walk(func(x *m.Node) {
+				if shadowed == "" && x.Kind == m.KOp && m.IsBuiltin(x.Name) && !m.IsAnd(x.Name) && !m.IsOr(x.Name) {
+					shadowed = x.Name
+				}
+			})
+			if shadowed != "" {
+				var outs [2]Outcome
+				var dumps [2]string
+				for k, events := range []int{0, c.Events} {
+					cc, _ := NewConfig(u, &Log{}, Build{Mask: mask, How: how, Costs: c.Costs, Events: events})
+					cc.OperatorMap[shadowed] = func(*eval.Ctx, []eval.Value) (eval.Value, error) { return int64(424242), nil }
+					e, co := SafeCompile(cc, src)
+					if co.Panic != nil || co.Err != nil {
+						outs[k] = co
+						continue
+					}
+					dumps[k], _ = SafeStr(func() string { return eval.Dump(e) })
+					f := NewFetcher(u, cc, &Log{})
+					run := func() { outs[k] = Safe(func() (eval.Value, error) { return e.Eval(f.Ctx()) }) }
+					if events > 0 {
+						runWithConsumer(e, 1, capacity, run)
+					} else {
+						run()
+					}
+				}
+				if !SameOutcomeLoose(outs[0], outs[1]) || dumps[0] != dumps[1] {
+					return Violf("C12: with an OperatorMap entry under the built-in name %q, event mode %d changes the result or the program\nconfig=%s src=%s\nwithout events: %v\n%s\nwith events: %v\n%s", shadowed, c.Events, maskName(mask), src, outs[0], dumps[0], outs[1], dumps[1])
+				}
+				r.Class("operator-map-entry-under-a-built-in-name")
+			}
+		}
 		// a program without variables needs no context: with a nil *Ctx (and an empty one) the event
 		// stream is what it is with a context
 		statefulOp := false
